@@ -527,6 +527,8 @@ func goldenContinuation(p *Profile, seed int64, known []int) []Op {
 		g.usedK[k] = true
 	}
 	r := g.r
+	// the schema file exactly as the pinned release left it, read by the model's own decoder
+	g.add(Op{Op: "simg"})
 	g.add(Op{Op: "reopen"})
 	g.add(Op{Op: "count"})
 	g.add(Op{Op: "control"})
@@ -551,6 +553,7 @@ func goldenContinuation(p *Profile, seed int64, known []int) []Op {
 		}
 	}
 	g.add(Op{Op: "close"})
+	g.add(Op{Op: "simg"})
 	g.add(Op{Op: "reopen"})
 	g.add(Op{Op: "count"})
 	g.add(Op{Op: "control"})
@@ -681,6 +684,7 @@ func History(p *Profile, seed int64) []Op {
 				// (the pairs profile is replayed under an asynchronous configuration too)
 				g.add(Op{Op: "close"})
 			}
+			g.add(Op{Op: "simg"})
 			g.add(Op{Op: "reopen"})
 			g.sids = nil
 		case "control":
@@ -689,6 +693,7 @@ func History(p *Profile, seed int64) []Op {
 			g.add(Op{Op: []string{"flushall", "flushallc", "commit"}[r.Intn(3)]})
 		case "ls":
 			g.add(Op{Op: "ls"})
+			g.add(Op{Op: "simg"})
 			g.add(Op{Op: "disk", K: g.pickK(10)})
 		case "recreate":
 			op := g.createOp()
